@@ -134,3 +134,5 @@ Theorem c10_src_crc_calc_bitserial : forall v, Forall (fun b => 0 <= b < 256) v 
 Proof. exact src_crc_calc_bitserial. Qed.
 Theorem c10_src_crc_table_built : py_crc_table = map (fun i => fst (iter_bit_step 8 (0, Z.of_nat i))) (seq 0 256).
 Proof. exact src_crc_table_built. Qed.
+Theorem c10_tie_dheat_padding : forall n, pad_len n = src_dheat_padding n.
+Proof. exact tie_dheat_padding. Qed.
